@@ -51,6 +51,21 @@ def generate(rng, tier, shard, nshards):
                          site="WFSA.from_strings", feat="ctor")
         for k in ("zero", "one"):
             yield aops.event("wlang", {"sr": srn, "ctor": k, "M": A, "sigma": sig, "L": 2}, site=f"WFSA.{k}", feat="ctor")
+        # plus / star of an automaton that already has epsilon links from final to initial states (a result of plus)
+        A3 = aops.rand_wfsa(rng, srn, nS=rng.choice([2, 3]), narcs=3, labels=("a", "b"), acyclic=True)
+        A3["I"] = [[0, A3["I"][0][1]]]
+        A3["F"] = [[A3["n"] - 1, A3["I"][0][1]]]
+        A3["arcs"].append([0, "a", A3["n"] - 1, [1, 2] if srn in ("RatU", "Rat") else 1])
+        if srn in ("RatU", "Rat"):
+            for r in A3["arcs"] + A3["I"] + A3["F"]:
+                r[-1] = [1, 2]
+        e1 = aops.event("wop", {"sr": srn, "A": A3, "sigma": sig, "L": 3, "fn": "kleene_plus", "style": style, "cls": cls},
+                        site="WFSA.kleene_plus", feat="plus")
+        yield e1
+        if "exc" not in e1 and not e1.get("skip"):
+            for fn in ("kleene_plus", "star"):
+                yield aops.event("wop", {"sr": srn, "A": e1["out"], "sigma": sig, "L": 3, "fn": fn, "style": style2, "cls": cls},
+                                 site=f"WFSA.{fn}(plus)", feat="plus-of-plus")
         # nested expressions: the (projected) result of one operation is the operand of the next, each step judged
         cur = A
         for depth in range(2):
